@@ -88,3 +88,9 @@ for _pid, _p in PROPERTIES.items():
             continue          # C17 runs G6 unscoped
         if _r not in _p["rules"]:
             _p["rules"].append(_r)
+
+# every property stated per environment needs each environment to own its game object (a game shared between the
+# environments of one ModelInstance is rewritten by the other environments' resets and steps)
+for _pid in ("C07", "C08", "C13", "C16"):
+    if wiring.rule_env_factory not in PROPERTIES[_pid]["rules"]:
+        PROPERTIES[_pid]["rules"].append(wiring.rule_env_factory)
